@@ -436,6 +436,7 @@ class POXCore (EventMixin):
     return deferral
 
   def _goUp_stage2 (self):
+    self._go_up_ready = False # Up is raised once; later deferrals defer nothing
 
     self.raiseEvent(UpEvent())
 
